@@ -811,6 +811,61 @@ def rule_r9(repo, tier):
     rr.require_floor(64)
     return rr
 
+def rule_reference(repo, rule='C01.R14'):
+    """End-to-end fold on the concrete templates of rules/pipeline.py against an independent reading of each template by the FM-94
+    rules (pipeline.reference_walk, written from the specification): the decoder walk, folded with a scripted reader, must ask for the
+    same fields in the same order with the same kinds and widths, label them alike, turn the scripted raw values into the same
+    numbers ((raw + reference) / 10**scale with 201 / 202 / 203 / 207 in force; 225255: width + 1, reference -2**width) and link
+    the same attribute values to the same owners."""
+    from sa.rules import pipeline as P
+    from sa.rules.c09 import TextInterp
+    rr = RuleResult(rule, 'decoder walk folded end to end on concrete templates against an independent FM-94 reading: fields, widths, labels, values, links')
+    kind = {'read_uint_or_none': 'uint', 'read_uint': 'uint', 'read_int': 'int', 'read_bytes': 'bytes'}
+    for name in sorted(P.templates()):
+        members, script = P.templates()[name]
+        if name == 'quality information while 204 is in force':
+            pass        # (decoding is right here; only the hierarchical view is a known finding of C07 / C09)
+        o = P.run_template(repo, name)
+        key = 'reference:%s' % name.split(' (')[0].replace(' ', '-').replace(',', '')
+        rr.instance('template "%s"' % name)
+        if not o.decode.ok:
+            rr.fail(key, 'pybufrkit/coder.py', 'template "%s": the decoder walk ends in %s' % (name, o.decode.exc.cls), witness={'template': name})
+            continue
+        ent, links, used = P.reference_walk(members, script)
+        if used != len(script):
+            raise AnalysisError('reference walk of "%s" uses %d of %d scripted values: the family entry is inconsistent' % (name, used, len(script)))
+        it = TextInterp(repo, None)
+        labels = []
+        for d in o.descs:
+            fi = repo.method(d.cls, '__str__')
+            r = it.run_function(fi, lambda: {'self': d}, self_class=d.cls)
+            labels.append(r[0].value if len(r) == 1 and r[0].ok else '?')
+        want_labels = [e[0] for e in ent]
+        want_vals = [e[3] for e in ent]
+        want_reads = [(k, w) for _, k, w, _ in ent if k != 'const']
+        got_reads = [(kind.get(m, m), a[0] if a else None) for m, a in o.reads]
+
+        def same(a, b):
+            if isinstance(a, float) or isinstance(b, float):
+                return a is not None and b is not None and not isinstance(a, bytes) and not isinstance(b, bytes) and abs(a - b) <= 1e-9 * max(1.0, abs(a))
+            return a == b and type(a) is type(b)
+        problems = []
+        if got_reads != want_reads:
+            d = [(i, g, w) for i, (g, w) in enumerate(zip(got_reads, want_reads)) if g != w][:1] or [('count', len(got_reads), len(want_reads))]
+            problems.append('fields read (kind, width) differ at %s: decoder %s, FM-94 %s' % d[0])
+        if labels != want_labels:
+            d = [(i, g, w) for i, (g, w) in enumerate(zip(labels, want_labels)) if g != w][:1] or [('count', len(labels), len(want_labels))]
+            problems.append('labels differ at %s: decoder %s, FM-94 %s' % d[0])
+        if len(o.vals) != len(want_vals) or not all(same(a, b) for a, b in zip(o.vals, want_vals)):
+            d = [(i, g, w) for i, (g, w) in enumerate(zip(o.vals, want_vals)) if not same(g, w)][:1] or [('count', len(o.vals), len(want_vals))]
+            problems.append('values differ at %s: decoder %r, FM-94 %r' % d[0])
+        if dict(o.links) != links:
+            problems.append('attribute links: decoder %s, FM-94 %s' % (dict(o.links), links))
+        if problems:
+            rr.fail(key, 'pybufrkit/coder.py', 'template "%s" with raw fields %s: %s' % (name, _short(script), '; '.join(problems)), witness={'template': name})
+    rr.require_floor(15)
+    return rr
+
 
 def run(repo, check):
     check.run_rule(rule_r1, repo)
@@ -836,6 +891,7 @@ def run(repo, check):
                                                 'data_not_present')))
     _sh(check, repo, _c05.rule_state_mode, 'C01.R13', 'the data section is read in the mode the header declares, whatever the number of subsets (shared with C05.R8)',
         args=('C01.R13',), keep=lambda f: 'Decoder' in f.key or 'CoderState' in f.key or 'decoder' in str(f.where))
+    check.run_rule(rule_reference, repo)
     check.assumptions = ['bitstring reads the requested number of bits MSB first (trusted base)',
                          'Table B contents (width, scale, reference of each element) are data, not decided here',
                          'the frozen operator table (DESIGN appendix A.3) restates FM-94 regulation 94.5.3 / Table C']
